@@ -21,10 +21,10 @@ from .common import wire, backends, imapresp
 from .common.model import Model
 from .common.report import Part, guarded
 
-USERS = {'testuser': 1, 'bob': 2, 'root': 3}
-PW = {'testuser': 'testpass', 'bob': 'pwbob', 'root': 'pwroot'}
+USERS = {'testuser': 1, 'bob': 2, 'root': 3, 'helper': 4}
+PW = {'testuser': 'testpass', 'bob': 'pwbob', 'root': 'pwroot', 'helper': 'pwhelper'}
 # mailboxes per user id: name -> (number, backend read-only)
-BOXES = {1: {'INBOX': (0, False), 'Sent': (1, False), 'Trash': (2, True)}, 2: {'INBOX': (0, False), 'bobbox': (3, False)}, 3: {'INBOX': (0, False), 'rootbox': (4, False)}}
+BOXES = {1: {'INBOX': (0, False), 'Sent': (1, False), 'Trash': (2, True)}, 2: {'INBOX': (0, False), 'bobbox': (3, False)}, 3: {'INBOX': (0, False), 'rootbox': (4, False)}, 4: {'INBOX': (0, False), 'helperbox': (5, False)}}
 
 
 def plain(authz, authc, pw):
@@ -62,6 +62,10 @@ ALPHABET = {
     'auth-plain-badpw': ([b'AUTHENTICATE PLAIN', plain('', 'testuser', 'nope')], lambda u: 'auth:1:1:-'),
     'auth-plain-admin-as-bob': ([b'AUTHENTICATE PLAIN', plain('bob', 'root', 'pwroot')], lambda u: 'auth:1:1:2'),
     'auth-plain-user-as-bob': ([b'AUTHENTICATE PLAIN', plain('bob', 'testuser', 'testpass')], lambda u: 'auth:1:1:-'),
+    # a user who holds a role, but not the admin role, may not act as somebody else
+    'auth-plain-helper-as-bob': ([b'AUTHENTICATE PLAIN', plain('bob', 'helper', 'pwhelper')], lambda u: 'auth:1:1:-'),
+    'auth-plain-helper-as-root': ([b'AUTHENTICATE PLAIN', plain('root', 'helper', 'pwhelper')], lambda u: 'auth:1:1:-'),
+    'auth-plain-helper': ([b'AUTHENTICATE PLAIN', plain('helper', 'helper', 'pwhelper')], lambda u: 'auth:1:1:4'),
     'auth-plain-admin-as-nobody': ([b'AUTHENTICATE PLAIN', plain('ghost', 'root', 'pwroot')], lambda u: 'auth:1:1:-'),
     'auth-cancel': ([b'AUTHENTICATE PLAIN', b'*'], lambda u: 'auth:1:0:-'),
     'auth-badb64': ([b'AUTHENTICATE PLAIN', b'!!!notbase64'], lambda u: 'auth:1:0:-'),
@@ -109,13 +113,13 @@ CONFIGS = [(False, True), (True, True), (True, False)]      # (tls enabled, peer
 
 async def make_server(tls, subsystem=None):
     from pymap.imap import IMAPServer
-    kw = dict(demo_data=True, users=[('bob', 'pwbob', ()), ('root', 'pwroot', ('admin',))], tls_enabled=tls)
+    kw = dict(demo_data=True, users=[('bob', 'pwbob', ()), ('root', 'pwroot', ('admin',)), ('helper', 'pwhelper', ('support',))], tls_enabled=tls)
     if tls:
         kw['ssl_context'] = ssl.create_default_context(ssl.Purpose.CLIENT_AUTH)
     backend, config = await backends.make_dict(**kw)
     srv = IMAPServer(backend.login, config)
     # bob's and root's extra mailboxes
-    for u, box in (('bob', 'bobbox'), ('root', 'rootbox')):
+    for u, box in (('bob', 'bobbox'), ('root', 'rootbox'), ('helper', 'helperbox')):
         c = wire.Client(srv, sock_info=None)
         await c.start()
         if tls:
